@@ -347,7 +347,7 @@ Commit(S, acc) ==
 HInit ==
     /\ known = {} /\ kids = [b \in Blocks \cup {0} |-> <<>>] /\ tip = 0
     /\ utxo = HBaseUtxo
-    /\ undo = [h \in {} |-> {}] /\ nDeliv = 0 /\ balOn = TRUE /\ flushed = {}
+    /\ undo = [h \in {} |-> {}] /\ nDeliv = 0 /\ balOn = 1 /\ flushed = {}
     /\ last = [accepted |-> FALSE, later |-> FALSE, viol |-> {}]
     /\ has = {} /\ b2g = {} /\ rcvd = {} /\ disc = {} /\ cache = <<>> /\ cmax = 0 /\ hiAcc = 0 /\ retry = FALSE
     /\ kf = "" /\ note = {}
